@@ -466,6 +466,13 @@ class CurveFitting(object):
         if abs(r) < TOL and abs(t) < TOL and abs(m) >= TOL:
             return (u / m, 0.0, 0.0)
 
+        if abs(t) < TOL and abs(m) >= TOL and abs(r) >= TOL:
+            # Only two fitting functions were given: solve the 2x2 system
+            d = m * r - p * p
+            if abs(d) < TOL:
+                raise ZeroDivisionError("Input data leads to a division by zero")
+            return ((u * r - v * p) / d, (v * m - u * p) / d, 0.0)
+
         if abs(m * r * t) < TOL:
             raise ZeroDivisionError("Invalid input functions: They are null")
 
